@@ -63,7 +63,13 @@ def c10(tier):
 
 def c15(tier):
     A = ['days_to_date']
-    return [Ob('c01_days_to_date_holds', slices=[{'d': (-2**31, -1)}, {'d': (0, 2**31 - 1)}], note='contract of days_to_date used below')] + \
+    B = ['days_to_date/bound', 'date_to_days', 'spec_rd/uf'] + KERNELS
+    signs = [{'d': (-2**31, -2)}, {'d': (-1, 1)}, {'d': (2, 2**31 - 1)}]
+    dt_date_setters = [Ob(f, abstractions=(['days_to_date/bound'] + KERNELS) if 'day_of_year' in f else B, slices=signs,
+                          note='DateTime date setters under any offset, range ends included (shared with C09): Ok exactly when the edited local date exists and is representable')
+                       for f in ('c09_dt_set_year_holds', 'c09_dt_set_month_holds', 'c09_dt_set_day_holds', 'c09_dt_set_day_of_year_holds')]
+    return [Ob('c01_days_to_date_holds', slices=[{'d': (-2**31, -1)}, {'d': (0, 2**31 - 1)}], note='contract of days_to_date used below'),
+            Ob('c01_date_to_days_holds', note='contract of date_to_days used below')] + kernel_obs() + dt_date_setters + \
            [Ob(f, abstractions=A if '_date_set_' in f else ()) for f in fns_of('c15_', 'c15.rs')]
 
 def c05(tier):
